@@ -124,12 +124,16 @@ def gen_recipes(rng, tier):
     # comparison as the value it is, not as a blank
     # ... and the blank marker itself, taken from ANOTHER generated class (a blank read from one model and fed to the next)
     falsy = [C.jenc(0), C.jenc(0.0), C.jenc(False), C.jenc(''), {'E': 1}]
-    others = [C.jenc(v) for v in (0.5, -0.5, 0.25, -0.75, 1, -1, 0, 'a', '', True, 1e-9, '#N/A', ' x', '-')]
+    others = [C.jenc(v) for v in (0.5, -0.5, 0.25, -0.75, 1, -1, 0, 'a', '', True, 1e-9, '#N/A', ' x', '-', ' ', '   ')]
     for a in falsy:
         for b in others:
             for l, r in ((a, b), (b, a)):
                 for op, _ in (OPS if tier != 'quick' else rng.sample(OPS, 3)):
                     out.append({'kind': 'override', 'op': op, 'l': l, 'r': r, 'pre': rng.random() < 0.5})
+    for t_ in [p for p in P if isinstance(C.jdec(p), str)]:
+        for l, r in (({'E': 1}, t_), (t_, {'E': 1})):
+            for op, _ in (OPS if tier != 'quick' else rng.sample(OPS, 3)):
+                out.append({'kind': 'cells', 'op': op, 'l': l, 'r': r})
     lits = [(p, literal_of(C.jdec(p))) for p in P]
     lits = [(p, s) for p, s in lits if s is not None]
     lp = list(itertools.product(lits, lits))
